@@ -1,0 +1,10 @@
+//go:build verif
+
+// C15: `snapctl refresh --hold` asks for the default (maximum) hold: the duration handed to
+// snapstate.HoldRefresh is zero and the level is the auto-refresh one. Only compiled with -tags verif.
+
+package ctlcmd
+
+//@ func (*refreshCommand).hold
+//@   props C15
+//@   guard call HoldRefresh: [default-duration] arg3 == 0 && arg1 == snapstate.HoldAutoRefresh
